@@ -193,6 +193,27 @@ func checkIndex(c *enum.Ctx, k kase) {
 			if fmt.Sprint(got) != fmt.Sprint(want) {
 				fail("ForEachKmerOf/windows", "range [%d,%d) of %q (k=%d): callbacks %v, valid windows %v", start, end, k.Seq, k.K, got, want)
 			}
+			// a callback that looks at the index it was handed: on its second call it starts a traversal of
+			// its own (as many letters, from the head of the sequence) on that index; the outer traversal goes on as if nothing had been
+			if len(want) >= 2 && (start+end)%3 == 0 {
+				var outer, inner [][2]int
+				n := 0
+				ki.ForEachKmerOf(s, start, end, func(ix *kmerindex.Index, pos, kmer int) {
+					outer = append(outer, [2]int{pos, kmer})
+					if n++; n == 2 {
+						ix.ForEachKmerOf(s, 0, end-start, func(_ *kmerindex.Index, p, w int) { inner = append(inner, [2]int{p, w}) })
+					}
+				})
+				var wantInner [][2]int
+				for p := 0; p+k.K <= end-start; p++ {
+					if w, ok := win[p]; ok {
+						wantInner = append(wantInner, [2]int{p, w})
+					}
+				}
+				if fmt.Sprint(outer) != fmt.Sprint(want) || fmt.Sprint(inner) != fmt.Sprint(wantInner) {
+					fail("ForEachKmerOf/nested", "range [%d,%d) of %q (k=%d) with a callback that traverses [0,%d) on the same index at its second call: outer callbacks %v (valid windows %v), inner %v (valid %v)", start, end, k.Seq, k.K, end-start, outer, want, inner, wantInner)
+				}
+			}
 		}
 	}
 	// the same index iterating OTHER sequences (as the PALS filter does with its query), among them
@@ -347,7 +368,7 @@ func check(c *enum.Ctx, k kase) {
 }
 
 func run(c *enum.Ctx) {
-	c.Rule("every index also iterates four foreign sequences (clean, with n/-/N/*, mixed case, with bytes 0x00/0x80/0xff); k=4: every sequence of length 5..7 (thorough 8) over {a,c,g,t,n} and every sequence of length 5..6 over {a,C,g,T,n,N} (case), every one of the 256 words queried, every sub-range [start,end) iterated; k=5..7: every sequence of length k+1..k+2 over {a,t,n}; k=8..10: every sequence of length k+1 over {a,n} (thorough {a,t,n}); RNA alphabet on fixed words; the size ladder: sequences of 2^j+9 letters (j=6..9, thorough 10) with one invalid letter at every position around every power of two, and of every ladder length 600..2049 (thorough 5001); the index maps are asked for once before Build; for every k<=6 (thorough 8) every word value for Format/KmerOf/GCof/ComplementOf against string operations; oracle: brute-force windows; non-trivial = sequences with at least one valid window")
+	c.Rule("every index also iterates four foreign sequences (clean, with n/-/N/*, mixed case, with bytes 0x00/0x80/0xff); k=4: every sequence of length 5..7 (thorough 8) over {a,c,g,t,n} and every sequence of length 5..6 over {a,C,g,T,n,N} (case), every one of the 256 words queried, every sub-range [start,end) iterated (every third one again with a callback that starts a traversal of its own on the index it is handed); k=5..7: every sequence of length k+1..k+2 over {a,t,n}; k=8..10: every sequence of length k+1 over {a,n} (thorough {a,t,n}); RNA alphabet on fixed words; the size ladder: sequences of 2^j+9 letters (j=6..9, thorough 10) with one invalid letter at every position around every power of two, and of every ladder length 600..2049 (thorough 5001); the index maps are asked for once before Build; for every k<=6 (thorough 8) every word value for Format/KmerOf/GCof/ComplementOf against string operations; oracle: brute-force windows; non-trivial = sequences with at least one valid window")
 	c.Assume("positions of a k-mer are compared as sets", "a range shorter than k may return nil or an error but must not call back")
 	var cases []kase
 	maxL := 7
